@@ -17,7 +17,7 @@ RULE = (
     "reached state. (b) real get_national_summary_estimates with injected registers: 2 contests (thorough 3), B=2, per contest draws in "
     "{(-.1,-.1),(-.1,.1),(.1,.1),(.001,-.001)}^2, point margin in {-.1,-.001,.001,.1} consistent with its call, weights {1,3}, base {0,10}, six call/stop "
     "statuses, both threshold and correlation modes: lower<=pred<=upper; hard threshold => base<=lower, upper<=base+sum(weights), pred=base+sum(weights "
-    "of contests with positive reported margin); draws of a called, not stop-listed contest change neither bound; a second evaluation on the same state returns the same. non-trivial = history has more than one "
+    "of contests with positive reported margin); draws of a called, not stop-listed contest change neither bound; a second evaluation on the same state returns the same. (a3) real client with a third, completely counted contest whose two-party vote is exactly tied (reported margin 0.0): prediction = base + weights of the contests with a positive reported margin. non-trivial = history has more than one "
     "aggregate computation / some contest is called, stopped or has draws disagreeing with its point prediction"
 )
 ASSUMPTIONS = ["'called contests contribute no uncertainty' is asserted for called and not stop-listed contests (a stop overrides a call, as in C07)"]
@@ -61,6 +61,12 @@ def cases(tier, seed):
     for lv in hlists:
         for calls in ("none", "all_left", "all_right"):
             out.append({"kind": "client_h", "levels": lv, "calls": calls, "seed": seed})
+    # a completely counted contest that ends in an exact two-party tie (reported margin exactly 0): its weight is not
+    # part of the prediction
+    for corr in (True, False):
+        for lv in (["postal_code"], ["postal_code", "county_fips"], ["county_fips", "postal_code"]):
+            for calls in (("none", "none"), ("left", "none"), ("right", "stop")):
+                out.append({"kind": "client_tie", "levels": lv, "corr": corr, "calls": list(calls), "seed": seed})
     for hard in (True, False):
         for corr in (True, False):
             out.append({"kind": "bfs", "depth": 2 if tier == "quick" else 3, "hard": hard, "corr": corr, "seed": seed})
@@ -221,6 +227,37 @@ def _client_h_case(case, cov, viol):
     if case["calls"] != "none":
         cov["district_office_histories_with_calls"] += 1
     return 2, True
+
+
+def _client_tie_case(case, cov, viol):
+    units = _election(case["seed"])
+    for k, (d, g) in enumerate([(60, 40), (40, 60), (550, 450), (450, 550), (33, 33)]):
+        units.append(E.make_unit(f"DDc{k % 2}_t{k}", "DD", f"DDc{k % 2}", "r", None, (d + 5, g - 3, d + g + 20), (d, g, d + g + 7), 100.0, 0.3))
+    cfg = _cfg(case["levels"], [0.9], True, case["corr"], case["calls"], ("AA", "BB", "DD"))
+    weights = {"AA": 3, "BB": 5, "DD": 16}
+    ctx = f"tied contest DD levels={case['levels']} corr={case['corr']} calls={case['calls']}"
+    r = E.run_estimates(units, cfg, keep_client=True)
+    if "error" in r:
+        viol("run-raised", f"{ctx}: {r['error']}")
+        return 1, True
+    margins = {row["postal_code"]: row["pred_margin"] for row in E.tab_rows(r["ok"]["state_data"])}
+    if margins.get("DD") == 0.0:
+        cov["exactly_tied_contests"] += 1
+    try:
+        tab = E.table_to_obj(r["client"].get_national_summary_votes_estimates(dict(weights), 2, [0.7, 0.9]))["rows"]
+    except Exception as e:
+        viol("summary-raised-with-tied-contest", f"{ctx}: {type(e).__name__}: {str(e)[:150]}")
+        return 1, True
+    _order(tab, viol, ctx)
+    exp = 2 + sum(w for c, w in weights.items() if margins[c] > 0)
+    if tab[0][1] != exp:
+        viol("summary-pred-not-sum-of-winners", f"{ctx}: prediction {tab[0][1]} but base + weights of contests with a positive reported margin = {exp} (margins {margins})")
+    row = tab[0]
+    for i in range(2, len(row), 2):
+        if not (2 <= row[i] and row[i + 1] <= 2 + sum(weights.values())):
+            viol("summary-out-of-range", f"{ctx}: bounds {row} outside [base, base + sum of weights]")
+    cov["tied_contest_runs"] += 1
+    return 1, True
 
 
 def _order(rows, viol, ctx):
@@ -386,6 +423,8 @@ def evaluate(case):
         runs, nontrivial = _client_case(case, cov, viol)
     elif case["kind"] == "client_h":
         runs, nontrivial = _client_h_case(case, cov, viol)
+    elif case["kind"] == "client_tie":
+        runs, nontrivial = _client_tie_case(case, cov, viol)
     elif case["kind"] == "bfs":
         runs, nontrivial, nstates = _bfs_case(case, cov, viol)
         extra["n_states"] = nstates
@@ -394,4 +433,4 @@ def evaluate(case):
     return dict({"violations": V, "cov": dict(cov), "outcome": sha([v["sig"] for v in V] + [case["kind"]]), "nontrivial": nontrivial, "transitions": max(1, runs)}, **extra)
 
 
-REQUIRED_COUNTERS = {"client_histories": 100, "bfs_states": 4, "seam_executions": 50000, "wrong_size_rejected": 100, "called_contest_draw_groups": 1000, "passthrough_only_contest_runs": 20, "district_office_histories_with_calls": 20}
+REQUIRED_COUNTERS = {"client_histories": 100, "bfs_states": 4, "seam_executions": 50000, "wrong_size_rejected": 100, "called_contest_draw_groups": 1000, "passthrough_only_contest_runs": 20, "district_office_histories_with_calls": 20, "exactly_tied_contests": 10}
